@@ -288,6 +288,73 @@ def h_e_pages(si: int, is_cnf: bool, li: int) -> bool:
     return untraced(_pages, SIZES[pick(si, 0, 10)], pickb(is_cnf), pick(li, 0, 5))
 
 
+EXTENDERS = 9
+
+
+def _extend(F, how, is_cnf):
+    """one more step of building, through each of the documented ways a formula grows"""
+    if how == 0:
+        F.add_clause([1, -2])
+    elif how == 1:
+        F.add_clause([])
+    elif how == 2:
+        F.new_variable('late')
+    elif how == 3:
+        F.update_variable_number(F.number_of_variables() + 2)
+    elif how == 4:
+        F.add_parity([1, 2, 3], 1)
+    elif how == 5:
+        F.add_clauses_from([[3], [-1, -3]])
+    elif how == 6:
+        f = F.new_mapping(2, 2)
+        F.force_functional_mapping(f)
+    elif how == 7:
+        if is_cnf:
+            F.add_linear([1, 2, -3], '!=', 1)
+        else:
+            F.cardinality_neq([1, 2, -3], 1)
+    else:
+        if is_cnf:
+            F.add_strict_majority([1, 2, 3])
+        else:
+            F.add_constraint([(2, 1), (1, -2), '>=', 2])
+
+
+def _render_all(F, is_cnf):
+    F.to_opb()
+    F.to_latex()
+    if is_cnf:
+        F.to_dimacs()
+    F.to_file(io.StringIO(), fileformat='opb')
+    F.to_file(io.StringIO(), fileformat='latex')
+
+
+def _render_extend(a, h1, h2, is_cnf, li):
+    """render, extend, render again: every rendering denotes the formula as it is NOW"""
+    F = _mk_cnf([a % len(CLAUSES)], li, 0) if is_cnf else _mk_opb([a], li, 0)
+    _render_all(F, is_cnf)
+    for how in (h1, h2):
+        _extend(F, how, is_cnf)
+        if not (_opb_ok(F, is_cnf, False, False) and _opb_ok(F, is_cnf, True, True) and _latex_ok(F, is_cnf, False, False)
+                and _latex_ok(F, is_cnf, True, True)):
+            return False
+        if is_cnf:
+            n = F.number_of_variables()
+            cl = [list(c) for c in F.clauses()]
+            lines = [ln for ln in F.to_dimacs().split('\n') if ln and not ln.startswith('c')]
+            if lines[0] != 'p cnf %d %d' % (n, len(cl)) or [[int(t) for t in ln.split()[:-1]] for ln in lines[1:]] != cl:
+                return False
+    return True
+
+
+def h_e_render_extend(a: int, h1: int, h2: int, is_cnf: bool, li: int) -> bool:
+    """
+    pre: 0 <= a <= 11 and 0 <= h1 <= 8 and 0 <= h2 <= 8 and 0 <= li <= 2
+    post: _
+    """
+    return untraced(_render_extend, pick(a, 0, 11), pick(h1, 0, 8), pick(h2, 0, 8), pickb(is_cnf), pick(li, 0, 2))
+
+
 class _Named:
     def __init__(self, name):
         self.name = name
